@@ -370,25 +370,59 @@ func checkControlAtomic(r *Run, p *Prog, la *LockAnalysis) {
 	// the removal is reachable only after the emptiness test said "empty"
 	if len(reads) > 0 && len(stores) > 0 {
 		// the variable or condition derived from len(r.gates)
-		var hasGates types.Object
+		// gatesTest: e compares len(<region>.gates) with 0; trueMeansEmpty tells which way
+		gatesTest := func(e ast.Expr) (trueMeansEmpty bool, ok bool) {
+			be, isBin := ast.Unparen(e).(*ast.BinaryExpr)
+			if !isBin {
+				return false, false
+			}
+			isLen := func(x ast.Expr) bool {
+				call, ok := ast.Unparen(x).(*ast.CallExpr)
+				if !ok || len(call.Args) != 1 {
+					return false
+				}
+				if bi, ok := Callee(remove, call).(*types.Builtin); !ok || bi.Name() != "len" {
+					return false
+				}
+				sel, ok := ast.Unparen(call.Args[0]).(*ast.SelectorExpr)
+				return ok && fieldVar(remove, sel) == gates
+			}
+			isZero := func(x ast.Expr) bool { v, ok := constInt(remove, x); return ok && v == 0 }
+			switch {
+			case isLen(be.X) && isZero(be.Y):
+				switch be.Op {
+				case token.EQL, token.LEQ:
+					return true, true
+				case token.NEQ, token.GTR:
+					return false, true
+				}
+			case isZero(be.X) && isLen(be.Y):
+				switch be.Op {
+				case token.EQL, token.GEQ:
+					return true, true
+				case token.NEQ, token.LSS:
+					return false, true
+				}
+			}
+			return false, false
+		}
+		var flag types.Object
+		flagMeansEmpty := false
 		inspectNoLit(remove.Body, func(n ast.Node) bool {
 			if as, ok := n.(*ast.AssignStmt); ok && len(as.Lhs) == 1 && len(as.Rhs) == 1 {
-				uses := false
-				ast.Inspect(as.Rhs[0], func(x ast.Node) bool {
-					if sel, ok := x.(*ast.SelectorExpr); ok && fieldVar(remove, sel) == gates {
-						uses = true
-					}
-					return true
-				})
-				if uses {
-					hasGates = objOf(remove, as.Lhs[0])
+				if me, ok := gatesTest(as.Rhs[0]); ok {
+					flag, flagMeansEmpty = objOf(remove, as.Lhs[0]), me
 				}
 			}
 			return true
 		})
+
 		emptyEdges := c.EdgesEstablishing(func(atom ast.Expr, val bool) bool {
-			if hasGates != nil && objOf(remove, atom) == hasGates {
-				return !val // hasGates == false
+			if flag != nil && objOf(remove, atom) == flag {
+				return val == flagMeansEmpty
+			}
+			if me, ok := gatesTest(atom); ok {
+				return val == me
 			}
 			return false
 		})
